@@ -40,6 +40,13 @@ var fullPool = []poolEntry{
 	{`""`, "string", `""`, "empty string"},
 	{`"abc"`, "string", `"abc"`, "string"},
 	{`#\a`, "other", `#\a`, "character"},
+	{`#\é`, "other", "(code-char 233)", "non-ASCII letter character"},
+	{`#\٣`, "other", "(code-char 1635)", "non-ASCII digit character (Arabic-Indic three)"},
+	{`#\nul`, "other", "(code-char 0)", "the NUL character"},
+	{`#\max`, "other", "(code-char 1114111)", "the last code point"},
+	{`"é٣"`, "string", "(coerce (list (code-char 233) (code-char 1635) (code-char 120171)) 'string)", "string of non-ASCII letter, digit and a 4-byte character"},
+	{"-2^63", "int", "-9223372036854775808", "most negative fixnum"},
+	{"-big", "int", "-18446744073709551617", "negative bignum"},
 	{"sym", "other", "", "fresh unbound, unfbound symbol"},
 	{"fsym", "other", "", "fresh symbol naming a (&rest r) function"},
 	{":zork", "other", ":zork", "keyword that names nothing"},
@@ -74,7 +81,7 @@ var fullPool = []poolEntry{
 }
 
 // quickPairPool: sub-pool for the 2-tuples of the quick tier.
-var quickPairNames = []string{"nil", "el", "0", "-1", "2^62", "1.5", `"abc"`, `#\a`, "sym", ":start", "(1 2 3)", "(1 . 2)", "#(1 2 3)", "ht", "sin", "lam"}
+var quickPairNames = []string{"nil", "el", "0", "-1", "2^62", "1.5", `"abc"`, `#\a`, `#\é`, "sym", ":start", "(1 2 3)", "(1 . 2)", "#(1 2 3)", "ht", "sin", "lam"}
 
 // triplePool: sub-pool for the 3-tuples.
 var tripleNames = []string{"nil", "-1", "2^62", `"abc"`, "sym", ":start", "(1 2 3)", "lam"}
